@@ -11,6 +11,8 @@
 (*   suspErr   a thread is suspended on an error (break on error)          *)
 (*   suspOdd   suspended with awkward values in scope (functions, Inf,     *)
 (*             deep containers, a container which contains itself)         *)
+(*   suspBusy  a thread is suspended inside a call while a second thread   *)
+(*             keeps calling functions (asks for the debugger lock)        *)
 (*   finished  the program ended                                           *)
 (* A command line is a command word and 0..4 argument tokens; tokens stand *)
 (* for classes of text (T below).  For every (state, line) the model gives *)
@@ -22,8 +24,8 @@
 (***************************************************************************)
 EXTENDS Integers, Sequences, FiniteSets, TLC
 
-States == {"fresh", "running", "suspTop", "suspCall", "suspErr", "suspOdd", "finished"}
-Suspended == {"suspTop", "suspCall", "suspErr", "suspOdd"}
+States == {"fresh", "running", "suspTop", "suspCall", "suspErr", "suspOdd", "suspBusy", "finished"}
+Suspended == {"suspTop", "suspCall", "suspErr", "suspOdd", "suspBusy"}
 
 \* argument tokens and the text class they stand for
 \*   tid     the id of the program's thread      tidx    a number which is no thread (7777)
@@ -31,7 +33,7 @@ Suspended == {"suspTop", "suspCall", "suspErr", "suspOdd"}
 \*   float   1.5                                 word    abc
 TidToks == {"tid", "tidx", "neg", "huge", "float", "word"}
 \*   sl prog:2   slx nosuch:3   sln prog:-1   slh prog:<huge>   slw prog:x   sle prog:   cl :5   sll a:1:2   src prog
-BreakToks == {"sl", "slx", "sln", "slh", "slw", "sle", "cl", "sll", "src", "word"}
+BreakToks == {"sl", "slx", "sln", "slh", "slw", "sle", "cl", "sll", "src", "word", "num", "neg"}    \* num: 42 (no colon at all)
 ContToks == {"resume", "stepin", "stepover", "stepout", "STEPIN", "word"}
 \*   var a variable of the suspended thread (x)   novar zz   badname 1x   expr 1+2   badexpr ((
 NameToks == {"var", "novar", "badname"}
